@@ -120,7 +120,7 @@ package files
 //@   ensures [C01 C07] mtime: cc.FileInfo.MTime == old(defaultedMTime(c.FileInfo, c.Type, c.Source, mtime))
 //@   ensures [C07] mtime-set-when-package-mtime-set: implies(!mtime.IsZero(), !cc.FileInfo.MTime.IsZero())
 //@   ensures [C01 C03] size: cc.FileInfo.Size == old(sizeAfter(c.FileInfo, c.Type, c.Source, mtime))
-//@   ensures [C06 C07] no-events: flag("failed") == old(flag("failed")) && flag("clockRead") == old(flag("clockRead")) && flag("envRead") == old(flag("envRead"))
+//@   ensures [C06 C07] no-events: ghostFlag("failed") == old(ghostFlag("failed")) && ghostFlag("clockRead") == old(ghostFlag("clockRead")) && ghostFlag("envRead") == old(ghostFlag("envRead"))
 //@   modifies [C11 C12]
 //
 //@ spec func sizeAfter(fi *ContentFileInfo, t, src string, mtime time.Time) int64 {
@@ -156,7 +156,7 @@ package files
 //
 //@ func sortedParents(dst string) (paths []string)
 //@   ensures [C11 C12] fresh-result: paths == nil || fresh(paths)
-//@   ensures [C06 C07] no-events: flag("failed") == old(flag("failed")) && flag("clockRead") == old(flag("clockRead")) && flag("envRead") == old(flag("envRead"))
+//@   ensures [C06 C07] no-events: ghostFlag("failed") == old(ghostFlag("failed")) && ghostFlag("clockRead") == old(ghostFlag("clockRead")) && ghostFlag("envRead") == old(ghostFlag("envRead"))
 //@   modifies [C11 C12]
 //@   loop 0 (paths []string)
 //@     invariant [C11 C12] accumulator-fresh: fresh(paths)
@@ -169,14 +169,14 @@ package files
 //@         return implies(mapHas(contentMap, k), (old(mapHas(contentMap, k)) && contentMap[k] == old(contentMap[k]) && (contentMap[k] == nil || contentMap[k].Type == old(contentMap[k].Type))) || (contentMap[k] != nil && contentMap[k].Type == "implicit dir" && strings.HasSuffix(k, "/")))
 //@     })
 //@     invariant [C11 C12 C07] plan-map-ok: planMapOK(contentMap, !mtime.IsZero())
-//@     invariant [C06] no-failure-so-far: !flag("failed")
-//@     invariant [C07] no-clock-so-far: !flag("clockRead") && !flag("envRead")
+//@     invariant [C06] no-failure-so-far: !ghostFlag("failed")
+//@     invariant [C07] no-clock-so-far: !ghostFlag("clockRead") && !ghostFlag("envRead")
 //
 //@ inline func addGlobbedFiles(all map[string]*Content, globbed map[string]string, origFile *Content, umask fs.FileMode, mtime time.Time) (err error)
 //@   loop 0
 //@     invariant [C11 C12 C07] plan-map-ok: planMapOK(all, !mtime.IsZero())
-//@     invariant [C06] no-failure-so-far: !flag("failed")
-//@     invariant [C07] no-clock-so-far: !flag("clockRead") && !flag("envRead")
+//@     invariant [C06] no-failure-so-far: !ghostFlag("failed")
+//@     invariant [C07] no-clock-so-far: !ghostFlag("clockRead") && !ghostFlag("envRead")
 //
 //@ inline func addTree(all map[string]*Content, tree *Content, umask os.FileMode, mtime time.Time) (err error)
 //
@@ -196,17 +196,17 @@ package files
 //@   ensures [C01] tree-file-source: implies(result == nil && !d.IsDir() && d.Type()&os.ModeSymlink == 0,
 //@       mapHas(all, treeKey(tree, path)) && all[treeKey(tree, path)].Source == path && all[treeKey(tree, path)].Type == "file")
 //@   requires [C11 C12 C07] plan-map-ok: planMapOK(all, !mtime.IsZero())
-//@   requires [C06] no-failure-so-far: !flag("failed")
-//@   requires [C07] no-clock-so-far: !flag("clockRead") && !flag("envRead")
+//@   requires [C06] no-failure-so-far: !ghostFlag("failed")
+//@   requires [C07] no-clock-so-far: !ghostFlag("clockRead") && !ghostFlag("envRead")
 //@   requires tree != nil
 //
 //@ func PrepareForPackager(rawContents Contents, umask fs.FileMode, packager string, disableGlobbing bool, mtime time.Time) (res Contents, err error)
 //@   requires SpecContentsNonNil(rawContents)
-//@   requires !flag("failed") && !flag("clockRead") && !flag("envRead")
+//@   requires !ghostFlag("failed") && !ghostFlag("clockRead") && !ghostFlag("envRead")
 //@   ensures [C11 C12 C01 C07] plan-fresh: implies(err == nil, SpecPlanSliceOK(res, !mtime.IsZero()))
 //@   ensures [C11 C12] result-fresh: implies(err == nil, res == nil || fresh(res))
-//@   ensures [C06] loud: implies(err == nil, !flag("failed"))
-//@   ensures [C07] no-clock-no-env: !flag("clockRead") && !flag("envRead")
+//@   ensures [C06] loud: implies(err == nil, !ghostFlag("failed"))
+//@   ensures [C07] no-clock-no-env: !ghostFlag("clockRead") && !ghostFlag("envRead")
 //@   modifies [C11 C12] flag("failed")
 //@   onstore (m map[string]*Content, key string, val *Content)
 //@   storeassert [C05] S1-key-is-destination: val != nil && val.Destination == key
@@ -218,11 +218,11 @@ package files
 //@   loop 0 (contentMap map[string]*Content)
 //@     invariant [C11 C12 C07] plan-map-ok: planMapOK(contentMap, !mtime.IsZero())
 //@     invariant [C11 C12] map-fresh: fresh(contentMap)
-//@     invariant [C06] no-failure-so-far: !flag("failed")
-//@     invariant [C07] no-clock-so-far: !flag("clockRead") && !flag("envRead")
+//@     invariant [C06] no-failure-so-far: !ghostFlag("failed")
+//@     invariant [C07] no-clock-so-far: !ghostFlag("clockRead") && !ghostFlag("envRead")
 //@   loop 1 (contentMap map[string]*Content, res Contents)
 //@     invariant [C11 C12 C07] plan-map-ok: planMapOK(contentMap, !mtime.IsZero())
 //@     invariant [C11 C12 C01 C07] plan-slice-ok: SpecPlanSliceOK(res, !mtime.IsZero())
 //@     invariant [C11 C12] accumulator-fresh: fresh(res)
-//@     invariant [C06] no-failure-so-far: !flag("failed")
-//@     invariant [C07] no-clock-so-far: !flag("clockRead") && !flag("envRead")
+//@     invariant [C06] no-failure-so-far: !ghostFlag("failed")
+//@     invariant [C07] no-clock-so-far: !ghostFlag("clockRead") && !ghostFlag("envRead")
